@@ -71,6 +71,11 @@ func (p *{{$TypeName}}) CountSetFields{{$TypeName}}() int {
 	}
 	{{- end}}
 	{{- end}}
+	{{- if Features.KeepUnknownFields}}
+	if len(p._unknownFields) > 0 {
+		count++ // a member added by a newer version of the union, kept as an unknown field
+	}
+	{{- end}}
 	return count
 }
 {{- end}}
